@@ -7,7 +7,7 @@ ID = "C09"
 LEVEL = "exploration"
 RULE = ("ALL connected multigraphs (<=2 parallel links per pair, canonical under junction relabelling) on 1-2 sources + <=3 "
         "(quick) / <=4 (thorough) junctions with <=5 / <=6 links x EVERY subset of initially closed links x schedules of "
-        "<=1 (quick; <=2 on graphs with <=3 links) / <=2 (thorough, small graphs) time controls toggling a link; variants with link 0 as head pump / TCV, run + reset + second run (judged) on the same simulator object / a new one (graphs with <= 4 links), and (graphs with <= 4 links; thorough <= 5) under the pressure-dependent demand model. "
+        "<=1 (quick; <=2 on graphs with <=3 links) / <=2 (thorough, small graphs) time controls toggling a link; graphs whose reservoir and tank are also joined directly; variants with link 0 as head pump / TCV, run + reset + second run (judged) on the same simulator object / a new one (graphs with <= 4 links), and (graphs with <= 4 links; thorough <= 5) under the pressure-dependent demand model. "
         "oracle: reference reachability over reported statuses: isolated => demand=pressure=head=0 and zero flow on its "
         "links; connected => full requested demand and the run solves; no-tank graphs: every step equals the steady state "
         "of the same closed set. non-trivial: at least one junction isolated at some step and one connected at some step")
@@ -77,6 +77,18 @@ def cases(tier):
                                     continue
                                 for ev in ((), ((0, 3600),)):
                                     out.append(graph_spec(nf, k, edges, closed, ev, variant))
+    # graphs in which the reservoir and the tank are ALSO joined directly (no junction in between): closures and single toggles
+    for k in ((1, 2) if tier == "quick" else (1, 2, 3)):
+        for edges in multigraphs(2, k, 4 if tier == "quick" else 5, no_fixed_fixed=False):
+            if not any(a < 2 and b < 2 for a, b in edges):
+                continue
+            L = len(edges)
+            for r in range(L + 1):
+                for closed in itertools.combinations(range(L), r):
+                    for ev in [()] + [((li, 3600),) for li in range(L)]:
+                        c = graph_spec(2, k, edges, set(closed), ev, "pipe")
+                        c["id"]["source_source_link"] = True
+                        out.append(c)
     return out
 
 
